@@ -80,7 +80,8 @@ def rule_prepare(repo, chk):
         if any(k == 'test' for k in ()):
             pass
         # announced: chunked flag and header go together (either order)
-        if "Transfer-Encoding" in _guard_text(n):
+        if pat.guarded_by(g, n, pat.test_edge(lambda tt, pol: (lambda fc: fc is not None and 'Transfer-Encoding' in fc[0] and fc[1] == '==' and 'chunked' in fc[2])(
+                pat.compare_fact(tt, pol)))) is None:
             continue  # `if headers.get('Transfer-Encoding') == 'chunked': self.chunked = True` — header already there
         before = Q.reachable_without(g, n, avoid_node=lambda m: m in te)
         after = Q.escapes(g, [n], lambda m: m in te)
